@@ -1,7 +1,7 @@
 import hashlib
 import json
 
-from harness.common import Prop, canon, use_repo_src, evaluate, case_hash, scale
+from harness.common import Prop, canon, use_repo_src, evaluate, case_hash, scale, code_of
 from harness import gen_build as G
 from harness import gen_models as M
 from harness.gen_text import err_tag
@@ -121,6 +121,7 @@ class C12(Prop):
                 cfgj = case['cfg']
                 fc = parsed[mi] if case['ast'] == models[mi][0]['ast'] else DznJsonAst(json_contents=json.dumps(case['ast'])).process()
                 rec = {'case': case, 'noshrink': True}
+                got_code = None
                 try:
                     mc = None
                     if cfgj.get('multiclient'):
@@ -143,6 +144,7 @@ class C12(Prop):
                     try:
                         res = builder.build(conf)
                         got = {'files': sig_of(res)}
+                        got_code = [[f.filename, code_of(f.contents)] for f in res.files]
                         pfx = conf.support_files_ns_prefix
                         alone = [m.create_header(pfx) for m in (strict_port, ilog, misc_utils, meta_helpers, multi_client_selector, mutex_wrapped)]
                         if [(f.filename, f.contents) for f in res.files[2:]] != [(f.filename, f.contents) for f in alone]:
@@ -154,7 +156,7 @@ class C12(Prop):
                         rec.setdefault('failed', []).append('build-altered-its-inputs')
                 key = case_hash([case['ast'], case['cfg']])
                 fr = fresh[key]
-                want = {'files': fr['files']} if 'files' in fr else {'err': fr['err']}
+                want = {'files': [f[:3] for f in fr['files']]} if 'files' in fr else {'err': fr['err']}
                 rec['impl'] = {'in_history': got, 'fresh_process': want}
                 if canon(got) != canon(want):
                     rec.setdefault('failed', []).append('result-depends-on-earlier-builds')
@@ -167,7 +169,7 @@ class C12(Prop):
                     m = mo['model']
                     ok = (m is not None) and (('err' in m and 'err' in got and m['err'] == got['err']) or
                                              ('ok' in m and 'files' in got and
-                                              [[f['name'], hashlib.sha256(f['contents'].encode('utf-8')).hexdigest()] for f in m['ok']['files']] == [[x[0], x[1]] for x in got['files']]))
+                                              [[f['name'], code_of(f['contents'])] for f in m['ok']['files']] == got_code))
                     if not ok:
                         rec['model'] = 'model output differs'
                         disagreements.append(rec)
